@@ -26,6 +26,11 @@ def run(tier, seed):
         # a module typed as a vector and vice versa: both must be rejected on both strands
         other = dict(cspec, generic="vector" if cspec["generic"] == "module" else "module")
         recipes.append({"fn": "typing", "cls": other, "seq": gen.rotate(s, rng.randrange(n)), "twin": {"by": "rc"}})
+    # growth: cutters whose recognition site contains ambiguity codes (LpnPI CCDG, SgrTI CCDS; the reverse site is CHGG / SHGG)
+    for cspec, s, marks, kind in tc.amb_members(rng, 3 if q else 15):
+        if "generic" in cspec:
+            for k in (0, rng.randrange(len(s))):
+                recipes.append({"fn": "typing", "cls": cspec, "seq": gen.rotate(s, k), "twin": {"by": "rc"}})
     # generic-typed plasmids of the registries (classes whose structure is the derived generic one)
     from .. import classes
     n_reg = 0
